@@ -62,6 +62,14 @@ def run(ctx, jobs=10):
         futs = [ex.submit(_one, prop, k, n, p, repo) for k, n, p in items]
         for f in futs:
             res.append(f.result())
+    # an outcome against expectation is replayed once more, alone (a machine under load has produced one in a background run that
+    # could not be reproduced): only an outcome that repeats is recorded
+    for i, (kind, name, verdict, detail) in enumerate(res):
+        if (kind == "seed" and verdict == "silent") or (kind == "benign" and verdict == "reported"):
+            patch = next(p for k, n, p in items if k == kind and n == name)
+            again = _one(prop, kind, name, patch, repo)
+            if again[2] != verdict:
+                res[i] = (kind, name, again[2], again[3] + " (first replay: %s)" % verdict)
     summary = {"seeds_reported": 0, "seeds_missed": [], "benign_silent": 0, "benign_alarms": [], "skipped": []}
     for kind, name, verdict, detail in res:
         ctx.inst("selftest", "%s/%s" % (kind, name), {"verdict": verdict, "rules": detail})
